@@ -181,6 +181,8 @@ pub fn hierarchy(property: &'static str) -> ReplCell {
         Op::Despawn(0),
         Op::Unmark(1),
         Op::Mark(1),
+        Op::SpawnChild(3, M_A, 0),
+        Op::ClearParent(3),
     ];
     c
 }
